@@ -344,6 +344,8 @@ def gen_instance(rng, *, d=None, k=None, N=None, vtype="sympy", fdkind=None,
             inst["fd_blocks"] if inst["fdkind"] == "tuple" else [])}), {}
         if not well_posed(inst):
             raise Regenerate("corner instance ill posed")
+    if corner == "large_offset" or (corner is None and rng.random() < 0.1):
+        add_offset(inst)
     if dyadic and not dyadic_gaps(inst):
         # float instances are compared EXACTLY: every eliminated gap must be +-2^k (or i times that);
         # corner strata re-assign levels after the random zero-block choice and could otherwise
@@ -396,6 +398,13 @@ def keep_pattern(inst):
             else:
                 keep[i, j] = True
     return keep, E
+
+
+def add_offset(inst, c=2 ** 20):
+    """Stratum "large offset": the whole spectrum far from zero (2^20 >> level spacings), as for a
+    Hamiltonian whose lab-frame energy was not subtracted; exact for floats (2^20 + k/2^m)."""
+    inst["E"] = [(epair(e)[0] + c, epair(e)[1]) if isinstance(e, tuple) else e + c for e in inst["E"]]
+    inst["large_offset"] = True
 
 
 def dyadic_gaps(inst):
